@@ -163,13 +163,21 @@ def compose(kind):
                 continue
             frames.append(fb)
         foreign = sender.buildPacket(ReadCoilsRequest(1, 8, unit=9))
+        from pymodbus.register_write_message import WriteMultipleRegistersRequest
+        wm = sender.buildPacket(WriteMultipleRegistersRequest(1, [1, 2, 3], unit=1))     # a request whose length depends on a byte count further in
         bad = bytearray(frames[0]); bad[-3 if kind != 'rtu' else -1] ^= 0x01
         alphabet = {'random': bytes(E.int('g%d' % i, 0, 256) for i in range(E.int('glen', 0, 12))), 'delims': b':{}\r\n{:', 'truncated': frames[5][:E.int('cut', 1, len(frames[5]))],
-                    'badcheck': bytes(bad), 'foreign': foreign, 'none': b''}
+                    'badcheck': bytes(bad), 'foreign': foreign, 'none': b'', 'truncated-before-byte-count': wm[:E.int('cut16', 2, 7)]}
         kind_g = E.choice('garbage', sorted(alphabet))
         garbage = alphabet[kind_g]
         got = []
         errors = 0
+        if E.bool('a_frame_was_served_before'):
+            # a receiver that has already served a request is in its steady state (for RTU: empty header), not in its constructor's state
+            try:
+                fr.processIncomingPacket(frames[5], got.append, [1])
+            except Exception:
+                fr.resetFrame()
         try:
             fr.processIncomingPacket(garbage, got.append, [1])
         except Exception:
@@ -187,7 +195,7 @@ def compose(kind):
             if delivered_from is None and any(getattr(m, 'address', None) == k + 1 for m in got):
                 delivered_from = k
         ok_after = all(any(getattr(m, 'address', None) == k + 1 for m in got) for k in range(2, 5))
-        fk = {'finding': 'C11-F1', 'region': kind == 'ascii' and kind_g in ('badcheck', 'delims', 'truncated', 'random')}
+        fk = {'finding': 'C11-F1', 'region': kind == 'ascii' and kind_g in ('badcheck', 'delims', 'truncated', 'random', 'truncated-before-byte-count')}
         E.prove('compose:every-frame-after-the-first-two-is-delivered', ok_after, **fk)
         E.prove('compose:backlog-below-two-maximum-frames', backlog <= 2 * 520)
     return lemma
